@@ -29,8 +29,11 @@ RULES = {
           "innermost binding win — first hit of a reversed scan, last write of a forward merge, ChainMap of the reversed "
           "stack — so a name that shadows an outer one is bound to the value of its own graph after a round trip",
     "R4": "determinism: no serialize function iterates a set-typed expression",
+    "R9": "round trip of function value information below IR version 10 (shared rule S9): the parser of the composite names the serializer builds "
+    "({domain}::{function}/{value}) splits at one occurrence of each separator (partition / maxsplit), never with an unbounded "
+    "split followed by a length test - value names are free text and routinely contain '/'",
 }
-FLOORS = {"R1": 30, "R2": 40, "R3": 2, "R4": 30, "R5": 2, "R6": 1, "R7": 1, "R8": 6}
+FLOORS = {"R1": 30, "R2": 40, "R3": 2, "R4": 30, "R5": 2, "R6": 1, "R7": 1, "R8": 6, "R9": 2}
 EXPLANATION = (
     "Effect summaries (writes on non-proto, non-fresh objects, class-qualified) of every serialize function; "
     "comparison of the attribute sets read by the serializer and supplied by the deserializer per IR class; "
@@ -267,6 +270,9 @@ def rule_r5(ctx):
 
 
 def run(ctx):
+    from ..shared import rule_s9
+
+    rule_s9(ctx, "R9", "the type and shape of that function value are lost by IR -> proto -> IR")
     ef = ctx._shared.get("effects")
     if ef is None:
         ef = ctx._shared["effects"] = Effects(ctx.repo, ctx.typer, tier4=(ctx.tier == "thorough"))
